@@ -35,6 +35,8 @@ func nodeKind(name string) string {
 		return "loop"
 	case strings.HasPrefix(name, "mirror"):
 		return "udf"
+	case strings.HasPrefix(name, "batch"), strings.HasPrefix(name, "query"):
+		return "pass"
 	}
 	return "pass"
 }
@@ -393,7 +395,7 @@ func runChild(r *rt.Run) error {
 			r.Extra["leak_signatures"] = strsAny(sigs)
 		}
 		r.Extra["driver_wall_s"] = int(time.Since(t0).Seconds())
-		r.Finish("real stream tasks (influxDBOut buffer 1/3/default, chain, alert with own handler, log, httpPost, kapacitorLoopback, fork, union, join, UDF) stopped with StopTask/DeleteTask/TaskMaster.Close/Drain+StopTasks while a gate (sink, node start, node after its k-th message) holds the backlog at a chosen place, 5..2400 points in flight (edge capacity 1000), with and without a failing node or a racing writer; each scenario attempted several times (Go select is random); non-trivial = scenario with a held backlog, a failing node or a racing writer, distinct by scenario", false)
+		r.Finish("real stream tasks (influxDBOut buffer 1/3/default, chain, alert with own handler, log, httpPost, kapacitorLoopback, fork, union, join, UDF; one batch task: query node -> influxDBOut with a query in flight) stopped with StopTask/DeleteTask/TaskMaster.Close/Drain+StopTasks while a gate (sink, node start, node after its k-th message) holds the backlog at a chosen place, 5..2400 points in flight (edge capacity 1000), with and without a failing node or a racing writer; each scenario attempted several times (Go select is random); non-trivial = scenario with a held backlog, a failing node or a racing writer, distinct by scenario", false)
 	}
 	for si := from; si < len(scens); si++ {
 		sc := scens[si]
